@@ -4,6 +4,8 @@ closed-form numpy oracle for the log-density of every factor (independent of cuq
 A graph is par: list (index v-1) of sorted parent lists over variables 1..N.  Variable v is called "v<v>".
 Realisation r selects the families:
   r = 0  all Gaussian: mean = sum of fixed matrices applied to the mean-parents, isotropic cov = c + |q|^2 of the scale-parent
+         (for even v with >= 2 parents the scale-parent is a mean-parent as well: one variable in two callables;
+          for even v with one parent: mean = cuqi LinearModel applied to the parent, the linear-Gaussian likelihood)
   r = 1  mixed: Gamma / GMRF roots, Laplace, LMRF, GMRF, Gamma children, Gaussian around a non-linear cuqi Model
   r = 2  all Gaussian, every parent through ONE mean callable of len(parents) arguments (staged partial conditioning)
 """
@@ -57,6 +59,14 @@ class Factor:
         elif r == 0:
             if len(P) >= 2 or (len(P) == 1 and v % 2 == 1):
                 self.mean_par, self.scale_par = P[:-1], P[-1]
+            if len(P) >= 2 and v % 2 == 0:
+                # the last parent enters through BOTH callables (mean and covariance): one conditioning value has to reach
+                # every parameter that depends on it
+                self.mean_par = P
+            if len(P) == 1 and v % 2 == 0:
+                # the textbook linear-Gaussian likelihood: mean = LinearModel(A) applied to the parent (the only family here
+                # whose posterior has a gradient, so that gradient-based samplers can be run on a conditioned copy)
+                self.family = "GaussianLinModel"
         else:
             if not P:
                 self.family = "Gamma" if self.d == 1 else ("GMRF" if v % 2 == 1 else "Gaussian")
@@ -94,6 +104,10 @@ class Factor:
         f = self.family
         if f == "Gaussian":
             m, c = self._mean(vals), self._scale(vals)
+            return -0.5 * d * math.log(2 * math.pi * c) - float((x - m) @ (x - m)) / (2 * c)
+        if f == "GaussianLinModel":
+            m = _mat(self.v, self.parents[0], d, DIMS[self.parents[0]]) @ vals[self.parents[0]]
+            c = 0.5 + 0.25 * self.v
             return -0.5 * d * math.log(2 * math.pi * c) - float((x - m) @ (x - m)) / (2 * c)
         if f == "GaussianModel":
             z = _mat(self.v, self.parents[0], d, DIMS[self.parents[0]]) @ vals[self.parents[0]]
@@ -144,6 +158,13 @@ class Factor:
         scale = _named_lambda([name(self.scale_par)], scale_fun) if self.scale_par is not None else c0
         if f == "Gaussian":
             return cuqi.distribution.Gaussian(mean=mean, cov=scale, geometry=d, name=nm)
+        if f == "GaussianLinModel":
+            p = self.parents[0]
+            A = mats[p]
+            model = cuqi.model.LinearModel(forward=_named_lambda([name(p)], lambda z: A @ np.asarray(z, dtype=float)),
+                                           adjoint=lambda y: A.T @ np.asarray(y, dtype=float),
+                                           range_geometry=d, domain_geometry=DIMS[p])
+            return cuqi.distribution.Gaussian(mean=model, cov=c0, geometry=d, name=nm)
         if f == "GaussianModel":
             p = self.parents[0]
             A = mats[p]
